@@ -487,8 +487,8 @@ type tvExt struct {
 func (x *tvExt) hit(class, msg string) {
 	x.hits[class]++
 	symptom := msg
-	if i := strings.LastIndex(msg, ": "); i >= 0 {
-		symptom = msg[i+2:]
+	if i := strings.Index(msg, "]: "); i >= 0 {
+		symptom = msg[i+3:]
 	}
 	if f := strings.Fields(symptom); len(f) > 2 {
 		symptom = strings.Join(f[:2], " ")
